@@ -443,3 +443,65 @@ pub(crate) fn default_ll_table() -> FSETable {
 pub(crate) fn default_of_table() -> FSETable {
     build_table_from_probabilities(OF_DIST, 5)
 }
+
+/// Pass-through wrappers for the verification harness (no logic).
+#[cfg(feature = "verif_hooks")]
+pub mod verif {
+    use super::*;
+    use crate::bit_io::BitWriter;
+
+    /// per symbol: (probability, states as (num_bits, baseline, last_index, index))
+    #[allow(clippy::type_complexity)]
+    pub fn table_states(t: &FSETable) -> Vec<(i32, Vec<(u8, usize, usize, usize)>)> {
+        t.states
+            .iter()
+            .map(|s| {
+                (
+                    s.probability,
+                    s.states
+                        .iter()
+                        .map(|st| (st.num_bits, st.baseline, st.last_index, st.index))
+                        .collect(),
+                )
+            })
+            .collect()
+    }
+    pub fn table_size(t: &FSETable) -> usize {
+        t.table_size
+    }
+    pub fn build_table_from_probabilities(probs: &[i32], acc_log: u8) -> FSETable {
+        super::build_table_from_probabilities(probs, acc_log)
+    }
+    pub fn build_table_from_counts(
+        counts: &[usize],
+        max_log: u8,
+        avoid_0_numbit: bool,
+    ) -> FSETable {
+        super::build_table_from_counts(counts, max_log, avoid_0_numbit)
+    }
+    pub fn default_tables() -> (FSETable, FSETable, FSETable) {
+        (default_ll_table(), default_ml_table(), default_of_table())
+    }
+    pub fn write_table(t: &FSETable) -> Vec<u8> {
+        let mut w = BitWriter::new();
+        t.write_table(&mut w);
+        w.dump()
+    }
+    /// table description followed by the single-state stream
+    pub fn encode(t: FSETable, data: &[u8]) -> Vec<u8> {
+        let mut w = BitWriter::new();
+        FSEEncoder::new(t, &mut w).encode(data);
+        w.dump()
+    }
+    /// table description followed by the two-state interleaved stream
+    pub fn encode_interleaved(t: FSETable, data: &[u8]) -> Vec<u8> {
+        let mut w = BitWriter::new();
+        FSEEncoder::new(t, &mut w).encode_interleaved(data);
+        w.dump()
+    }
+    /// `next_state(symbol, idx)` as (num_bits, baseline, last_index, index)
+    pub fn next_state(t: &FSETable, symbol: u8, idx: usize) -> (u8, usize, usize, usize) {
+        let s = t.next_state(symbol, idx);
+        (s.num_bits, s.baseline, s.last_index, s.index)
+    }
+}
